@@ -1253,3 +1253,259 @@ Proof.
     destruct (snapshot_state_exits r m pr0 Hg Es) as (A & B & _).
     eexists. eexists. split; [exact A|]. split; [apply get_pr_put_same|exact B].
 Qed.
+
+(* ================================================================== *)
+(* 4. the election timeout fires                                       *)
+(* ================================================================== *)
+
+(* n consecutive ticks with nothing in between *)
+Fixpoint ticks (n : nat) (r : raft) : Res raft :=
+  match n with
+  | O => Ok r
+  | S k => x <- tick r ;; ticks k (fst x)
+  end.
+
+Lemma set_elapsed_twice (r : raft) a b :
+  r <| r_election_elapsed := a |> <| r_election_elapsed := b |> = r <| r_election_elapsed := b |>.
+Proof. destruct r; reflexivity. Qed.
+
+(* MsgHup (a local message, term 0) is [hup false] in every role *)
+Lemma step_hup r m : m_type m = MsgHup -> m_term m = 0 ->
+  step r m = (r' <- hup r false ;; Ok (r', E_OK)).
+Proof.
+  intros Ht H0. unfold step. rewrite H0. change (0 =? 0) with true. cbn [bind]. rewrite Ht.
+  reflexivity.
+Qed.
+
+(* one tick of a non-leader: either the counter goes up by one ... *)
+Theorem tick_election_waits r :
+  r_state r <> Leader ->
+  r_election_elapsed r + 1 < r_randomized_election_timeout r \/ r_promotable r = false ->
+  tick r = Ok (r <| r_election_elapsed := r_election_elapsed r + 1 |>, false).
+Proof.
+  intros Hs Hw. assert (Ht : tick r = tick_election r) by (unfold tick; destruct (r_state r); congruence).
+  rewrite Ht. unfold tick_election, pass_election_timeout.
+  change (r_randomized_election_timeout (r <| r_election_elapsed := r_election_elapsed r + 1 |>))
+    with (r_randomized_election_timeout r).
+  change (r_election_elapsed (r <| r_election_elapsed := r_election_elapsed r + 1 |>))
+    with (r_election_elapsed r + 1).
+  change (r_promotable (r <| r_election_elapsed := r_election_elapsed r + 1 |>)) with (r_promotable r).
+  destruct Hw as [Hw|Hw].
+  - destruct (r_randomized_election_timeout r <=? r_election_elapsed r + 1) eqn:E; [lia|]. reflexivity.
+  - rewrite Hw. rewrite orb_true_r. reflexivity.
+Qed.
+
+(* ... or, the randomized timeout being reached on a promotable node, the counter is
+   cleared and [hup] runs *)
+Theorem tick_election_fires r :
+  r_state r <> Leader -> r_promotable r = true ->
+  r_randomized_election_timeout r <= r_election_elapsed r + 1 ->
+  tick r = (r' <- hup (r <| r_election_elapsed := 0 |>) false ;; Ok (r', true)).
+Proof.
+  intros Hs Hp Hw. assert (Ht : tick r = tick_election r) by (unfold tick; destruct (r_state r); congruence).
+  rewrite Ht. unfold tick_election, pass_election_timeout.
+  change (r_randomized_election_timeout (r <| r_election_elapsed := r_election_elapsed r + 1 |>))
+    with (r_randomized_election_timeout r).
+  change (r_election_elapsed (r <| r_election_elapsed := r_election_elapsed r + 1 |>))
+    with (r_election_elapsed r + 1).
+  change (r_promotable (r <| r_election_elapsed := r_election_elapsed r + 1 |>)) with (r_promotable r).
+  rewrite Hp. destruct (r_randomized_election_timeout r <=? r_election_elapsed r + 1) eqn:E; [|lia].
+  cbn [negb orb]. rewrite set_elapsed_twice.
+  rewrite step_hup by reflexivity.
+  destruct (hup (r <| r_election_elapsed := 0 |>) false); reflexivity.
+Qed.
+
+(* MAIN 4a: a promotable non-leader that receives nothing runs [hup] after exactly
+   max 1 (randomized_election_timeout - election_elapsed) consecutive ticks - at most
+   max 1 randomized_election_timeout of them - the counter going up by one per tick *)
+Theorem election_timeout_fires n : forall r,
+  r_state r <> Leader -> r_promotable r = true ->
+  r_election_elapsed r + N.of_nat (S n) =
+    N.max (r_randomized_election_timeout r) (r_election_elapsed r + 1) ->
+  ticks (S n) r = hup (r <| r_election_elapsed := 0 |>) false /\
+  forall k, (k <= n)%nat ->
+    ticks k r = Ok (r <| r_election_elapsed := r_election_elapsed r + N.of_nat k |>).
+Proof.
+  induction n as [|n IH]; intros r Hs Hp He.
+  - split.
+    + cbn [ticks]. rewrite tick_election_fires by (try assumption; lia).
+      destruct (hup (r <| r_election_elapsed := 0 |>) false); reflexivity.
+    + intros k Hk. assert (k = O) by lia. subst k. cbn [ticks N.of_nat].
+      rewrite N.add_0_r. destruct r; reflexivity.
+  - assert (Hw : r_election_elapsed r + 1 < r_randomized_election_timeout r) by lia.
+    set (r1 := r <| r_election_elapsed := r_election_elapsed r + 1 |>).
+    destruct (IH r1) as [A B]; try assumption.
+    { subst r1. cbn -[N.of_nat N.max]. lia. }
+    split.
+    + change (ticks (S (S n)) r) with (x <- tick r ;; ticks (S n) (fst x)).
+      rewrite tick_election_waits by (try assumption; left; exact Hw). cbn [bind fst].
+      fold r1. rewrite A. subst r1. rewrite set_elapsed_twice. reflexivity.
+    + intros k Hk. destruct k as [|k].
+      * cbn [ticks N.of_nat]. rewrite N.add_0_r. destruct r; reflexivity.
+      * change (ticks (S k) r) with (x <- tick r ;; ticks k (fst x)).
+        rewrite tick_election_waits by (try assumption; left; exact Hw). cbn [bind fst].
+        fold r1. rewrite B by lia. subst r1. rewrite set_elapsed_twice. cbn -[N.of_nat].
+        replace (r_election_elapsed r + 1 + N.of_nat k) with (r_election_elapsed r + N.of_nat (S k)) by lia.
+        reflexivity.
+Qed.
+
+Corollary election_timeout_bound r :
+  r_state r <> Leader -> r_promotable r = true ->
+  exists n, (N.of_nat n <= N.max 1 (r_randomized_election_timeout r)) /\ (1 <= n)%nat /\
+            ticks n r = hup (r <| r_election_elapsed := 0 |>) false.
+Proof.
+  intros Hs Hp.
+  set (d := N.max (r_randomized_election_timeout r) (r_election_elapsed r + 1) - r_election_elapsed r).
+  exists (S (N.to_nat (d - 1))). split; [lia|]. split; [lia|].
+  apply election_timeout_fires; try assumption. lia.
+Qed.
+
+(* MAIN 4b: reset installs the oracle's next draw as the randomized election timeout
+   (the harness feeds the values thread_rng produced, which the Rust takes from
+   [min_election_timeout, max_election_timeout)), and clears the counter *)
+Theorem randomized_timeout_range r t r' :
+  reset r t = Ok r' ->
+  exists d ds, r_draws r = d :: ds /\ r_randomized_election_timeout r' = d /\ r_draws r' = ds /\
+    r_election_elapsed r' = 0 /\ r_heartbeat_elapsed r' = 0 /\
+    r_min_election_timeout r' = r_min_election_timeout r /\
+    r_max_election_timeout r' = r_max_election_timeout r.
+Proof.
+  unfold reset. intros H.
+  destruct (negb (r_term r =? t)); cbn in H;
+    match type of H with match ?dd with _ => _ end = _ => destruct dd as [|d ds] eqn:E end;
+    try discriminate; inversion H; subst; cbn; exists d, ds; repeat split; reflexivity.
+Qed.
+
+(* --- what hup does --- *)
+
+Lemma count_votes_no_rejection V (c : vote_t) :
+  (forall v, c v <> Some false) ->
+  (fst (count_votes V c) + snd (count_votes V c) = length V)%nat.
+Proof.
+  intros Hc. induction V as [|v t IH]; cbn [count_votes length]; [reflexivity|].
+  destruct (count_votes t c) as [y mi]. cbn [fst snd] in IH.
+  destruct (c v) as [[|]|] eqn:E; cbn [fst snd]; try lia. exfalso. apply (Hc v). exact E.
+Qed.
+
+Lemma vote_result_not_lost V (c : vote_t) :
+  (forall v, c v <> Some false) -> vote_result V c <> VoteLost.
+Proof.
+  intros Hc. unfold vote_result. destruct V as [|v0 t]; [discriminate|].
+  pose proof (count_votes_no_rejection (v0 :: t) c Hc) as Hs.
+  destruct (count_votes (v0 :: t) c) as [y mi]. cbn [fst snd] in Hs.
+  destruct (majority (length (v0 :: t)) <=? y)%nat; [discriminate|].
+  destruct (Nat.leb_spec (majority (length (v0 :: t))) (y + mi)); [discriminate|].
+  exfalso. unfold majority in *. rewrite Hs in H. cbn [length] in H.
+  pose proof (Nat.div_lt (S (length t)) 2 ltac:(lia) ltac:(lia)). lia.
+Qed.
+
+Lemma own_vote_not_lost inc out id :
+  tracker_vote_result inc out (record_vote [] id true) <> VoteLost.
+Proof.
+  unfold tracker_vote_result, joint_vote_result, record_vote. cbn [assoc].
+  assert (Hc : forall v, assoc [(id, true)] v <> Some false).
+  { intros v. cbn [assoc]. destruct (id =? v); discriminate. }
+  pose proof (vote_result_not_lost inc _ Hc). pose proof (vote_result_not_lost out _ Hc).
+  destruct (vote_result inc _), (vote_result out _); congruence.
+Qed.
+
+Lemma reset_votes r t r' :
+  reset r t = Ok r' ->
+  t_votes (r_prs r') = [] /\ r_id r' = r_id r /\ r_state r' = r_state r /\ conf_of r' = conf_of r.
+Proof.
+  unfold reset. intros H.
+  destruct (negb (r_term r =? t)); cbn in H;
+    match type of H with match ?d with _ => _ end = _ => destruct d end;
+    try discriminate; inversion H; subst; cbn; repeat split; reflexivity.
+Qed.
+
+Lemma send_vote_requests_msgs_only ids : forall r vm t cm ct tr r',
+  send_vote_requests ids r vm t cm ct tr = Ok r' -> msgs_only r r'.
+Proof.
+  induction ids as [|id rest IH]; intros r vm t cm ct tr r' H.
+  { inversion H; subst. apply msgs_only_refl. }
+  cbn [send_vote_requests] in H. destruct (id =? r_id r). { eapply IH; exact H. }
+  inv_bind H. inv_bind H. eapply msgs_only_trans; [eapply send_msgs_only; eassumption|].
+  assert (Hid : r_id x0 = r_id r) by (apply send_msgs_only in Hx0; rewrite Hx0; reflexivity).
+  eapply IH. exact H.
+Qed.
+
+(* polling one's own vote on an empty tally: never lost *)
+Lemma poll_gen_own_vote rc r r' res :
+  t_votes (r_prs r) = [] -> poll_gen rc r (r_id r) true = Ok (r', res) ->
+  let r0 := r <| r_prs := (r_prs r) <| t_votes := record_vote [] (r_id r) true |> |> in
+  (res = VotePending /\ r' = r0) \/
+  (res = VoteWon /\
+   if role_eqb (r_state r) PreCandidate then rc r0 = Ok r'
+   else (r1 <- become_leader r0 ;; bcast_append r1) = Ok r').
+Proof.
+  intros Hv H. unfold poll_gen in H. rewrite Hv in H. cbv zeta.
+  match type of H with
+  | context [tracker_vote_result ?a ?b ?c] =>
+      assert (Hnl : tracker_vote_result a b c <> VoteLost) by apply own_vote_not_lost;
+      destruct (tracker_vote_result a b c)
+  end; [|congruence|].
+  - inversion H; subst. left. auto.
+  - right.
+    match type of H with (if ?c then _ else _) = _ =>
+      change c with (role_eqb (r_state r) PreCandidate) in H end.
+    destruct (role_eqb (r_state r) PreCandidate).
+    + inv_bind H. inversion H; subst. auto.
+    + inv_bind H. inv_bind H. inversion H; subst. split; [reflexivity|].
+      rewrite Hx. cbn [bind]. exact Hx0.
+Qed.
+
+Lemma campaign_real_role tr r r' :
+  campaign_real tr r = Ok r' ->
+  (r_state r' = Candidate /\ r_term r' = r_term r + 1 /\ r_vote r' = r_id r) \/
+  (r_state r' = Leader /\ r_term r' = r_term r + 1).
+Proof.
+  unfold campaign_real. intros H. inv_bind H. rename x into r1.
+  assert (Hr1 : t_votes (r_prs r1) = [] /\ r_id r1 = r_id r /\ r_state r1 = Candidate /\
+                r_term r1 = r_term r + 1 /\ r_vote r1 = r_id r).
+  { unfold become_candidate in Hx. destruct (is_leader r); [discriminate|].
+    inv_bind Hx. inversion Hx; subst r1; clear Hx.
+    pose proof (reset_votes _ _ _ Hx0) as (V1 & V2 & V3 & V4).
+    pose proof (reset_fields _ _ _ Hx0) as (_ & _ & _ & _ & _ & _ & Tm & _).
+    cbn. auto. }
+  destruct Hr1 as (V1 & V2 & V3 & V4 & V5).
+  inv_bind H. destruct x as [r2 res].
+  apply (poll_gen_own_vote _ _ _ _ V1) in Hx0. cbv zeta in Hx0.
+  destruct Hx0 as [[-> ->]|[-> Hw]].
+  - inv_bind H. apply send_vote_requests_msgs_only in H. rewrite H.
+    left. cbn. auto.
+  - rewrite V3 in Hw. cbn [role_eqb] in Hw. inversion H; subst r2; clear H.
+    inv_bind Hw. apply become_leader_spec in Hx0. destruct Hx0 as (L1 & _ & _ & L2 & _).
+    apply bcast_append_fr in Hw. destruct Hw as (B1 & _ & _ & _ & _ & _ & B2).
+    right. rewrite B1, B2, L1, L2. cbn. auto.
+Qed.
+
+(* MAIN 4c: [hup] on a non-leader with no unapplied membership change always campaigns:
+   the node ends as PreCandidate (pre_vote, same term), as Candidate of term + 1 having
+   voted for itself, or - when its own vote is already a quorum - as Leader of term + 1.
+   (Blocked case: C09 hup_blocked.) *)
+Theorem hup_campaigns r r' :
+  is_leader r = false ->
+  has_unapplied_conf_changes r (hup_low r) (committed (r_log r) + 1) = Ok false ->
+  hup r false = Ok r' ->
+  (r_state r' = PreCandidate /\ r_pre_vote r = true /\ r_term r' = r_term r) \/
+  (r_state r' = Candidate /\ r_term r' = r_term r + 1 /\ r_vote r' = r_id r) \/
+  (r_state r' = Leader /\ r_term r' = r_term r + 1).
+Proof.
+  intros Hl Hc H. apply hup_spec in H.
+  destruct H as [[E _]|[(_ & E & _)|(_ & _ & H)]]; [congruence|congruence|].
+  unfold hup_campaign in H. destruct (r_pre_vote r) eqn:Epv.
+  2:{ right. apply campaign_real_role in H. exact H. }
+  unfold campaign_pre in H. inv_bind H. rename x into r1.
+  unfold become_pre_candidate in Hx. rewrite Hl in Hx. inversion Hx; subst r1; clear Hx.
+  inv_bind H. destruct x as [r2 res]. unfold poll in Hx.
+  set (r1 := r <| r_state := PreCandidate |> <| r_prs := (r_prs r) <| t_votes := [] |> |>
+               <| r_leader_id := INVALID_ID |>) in *.
+  apply (poll_gen_own_vote _ r1 _ _ eq_refl) in Hx. cbv zeta in Hx.
+  destruct Hx as [[-> ->]|[-> Hw]].
+  - inv_bind H. apply send_vote_requests_msgs_only in H. rewrite H.
+    left. cbn. auto.
+  - change (role_eqb (r_state r1) PreCandidate) with true in Hw. cbv iota in Hw.
+    inversion H; subst r2; clear H.
+    apply campaign_real_role in Hw. right. exact Hw.
+Qed.
